@@ -179,6 +179,46 @@ class WHook:
                 self.call("mean_curve_by_azimuth", lambda: obj.mean_curve_by_azimuth(inst.dist_a), exp, sline, cv, inst)
 
 
+def zero_amplitude(run, hvsrpy):
+    """An amplitude of exactly 0 in an accepted window (legal input): under the lognormal assumption the log-space average over azimuths
+    of the per-azimuth log means is minus infinity at that sample - the mean curve is 0 there and the standard deviation is not finite;
+    every other sample is weighted as ever (never a finite value computed from a subset of the accepted windows and a weight that
+    stays behind), and a single azimuth equals the traditional result."""
+    import warnings
+    f = np.array([1.0, 2.0, 3.0, 4.0, 5.0, 6.0])
+    a0 = np.array([[1.0, 2.0, 3.0, 0.0, 1.0, 1.5], [1.0, 3.0, 2.0, 1.0, 1.0, 1.2], [1.0, 2.5, 3.0, 2.0, 1.0, 1.1]])
+    a1 = np.array([[1.5, 2.2, 3.3, 2.4, 1.0, 1.3], [1.1, 2.1, 3.4, 1.9, 1.2, 1.4], [1.3, 2.0, 3.1, 2.2, 1.1, 1.6], [1.2, 2.4, 3.0, 2.1, 1.3, 1.2]])
+    col = 3
+    for rej in ((), (1,)):
+        t0, t1 = hvsrpy.HvsrTraditional(f, a0), hvsrpy.HvsrTraditional(f, a1)
+        obj = hvsrpy.HvsrAzimuthal([t0, t1], [0.0, 90.0])
+        for w in rej:
+            obj.hvsrs[0].valid_window_boolean_mask[w] = False
+            obj.hvsrs[0].valid_peak_boolean_mask[w] = False
+        acc0 = [w for w in range(3) if w not in rej]
+        with warnings.catch_warnings(), np.errstate(divide="ignore", invalid="ignore"):
+            warnings.simplefilter("ignore")
+            mean_l, std_l = np.asarray(obj.mean_curve("lognormal")), np.asarray(obj.std_curve("lognormal"))
+            mean_n = np.asarray(obj.mean_curve("normal"))
+            rows = np.vstack([a0[acc0], a1])
+            wts = np.array([1.0 / (2 * len(acc0))] * len(acc0) + [1.0 / 8.0] * 4)
+            lm = np.sum(wts[:, None] * np.log(rows), axis=0)
+            want_mean = np.exp(lm)
+            want_std = np.sqrt(np.sum(wts[:, None] * (np.log(rows) - lm) ** 2, axis=0) / (1.0 - np.sum(wts ** 2)))
+            want_mean_n = np.sum(wts[:, None] * rows, axis=0)
+            single = hvsrpy.HvsrAzimuthal([hvsrpy.HvsrTraditional(f, a0)], [0.0])
+            s_mean, t_mean = np.asarray(single.mean_curve("lognormal")), np.asarray(hvsrpy.HvsrTraditional(f, a0).mean_curve("lognormal"))
+        others = [c for c in range(len(f)) if c != col]
+        ok = (np.allclose(mean_l[others], want_mean[others], rtol=1e-12) and np.allclose(std_l[others], want_std[others], rtol=1e-10)
+              and np.allclose(mean_n, want_mean_n, rtol=1e-12) and mean_l[col] == 0.0 and not np.isfinite(std_l[col])
+              and np.allclose(s_mean, t_mean, rtol=1e-12, equal_nan=True))
+        if not ok:
+            run.violation("wstat:zero-amplitude", f"windows {list(rej)} of azimuth 0 rejected, window 0 of azimuth 0 is exactly 0 at {f[col]} Hz: lognormal mean curve "
+                          f"{mean_l.tolist()}, std curve {std_l.tolist()}; the weighted estimators give {want_mean.tolist()} / {want_std.tolist()}; single azimuth "
+                          f"{s_mean.tolist()} vs traditional {t_mean.tolist()}", dict(kind="wstat-zero", rejected=list(rej)))
+        run.case(("zero-amp", rej))
+
+
 def main():
     run = Run("C11")
     hvsrpy = import_hvsrpy()
@@ -244,6 +284,7 @@ def main():
     run.notes["compacted_objects_with_unequal_counts"] = getattr(hook, "compacted_unequal", 0)
     if getattr(hook, "compacted_unequal", 0) == 0:
         raise Exception("non-vacuity failed: no state with unequal accepted counts was rebuilt without its rejected windows")
+    zero_amplitude(run, hvsrpy)
     # ---- per-azimuth accept / reject states are per azimuth and per object (spec/TraceResultHeap.tla): a rejection on one object or
     #      azimuth leaves every other object and azimuth alone, and no two masks share storage
     import resultheap
